@@ -100,6 +100,9 @@ def gen_case(rng, big=False):
                 if rng.random() < 0.25:
                     st.append([i, j])
         case['stitch'] = st
+    if kind in ('polylist', 'polygons') and case['lens'] and rng.random() < 0.3:
+        # polygons "closed" by repeating their first corner as the last one (some exporters do): still n corners, n-2 triangles
+        case['closed'] = [i for i, n in enumerate(case['lens']) if n >= 4 and rng.random() < 0.5]
     return case
 
 
@@ -120,6 +123,9 @@ def materialise(case):
     for i, j in case.get('stitch') or []:
         if i < len(ps) and j < len(ps[i]):
             ps[i][j] = list(ps[i][j - 1])
+    for i in case.get('closed') or []:
+        if i < len(ps) and len(ps[i]) >= 4:
+            ps[i][-1] = list(ps[i][0])
     tail = labels[total * k:]
     nsrc = base + total * k + extra + 1
     return ps, tail, nsrc
